@@ -51,6 +51,7 @@ class _MThread:
     self.pending: tuple | None = ('start',)   # operation the thread will perform when next scheduled
     self.os_thread: _real_threading.Thread | None = None
     self.wake_kind = None                     # set by the scheduler for waits: 'notified' | 'timeout'
+    self.held = 0                             # locks currently held (reads under a held lock are not yield points)
 
 
 class Scheduler:
@@ -289,25 +290,39 @@ class Lock:
       self.count += 1
       return True
     if not blocking:
-      s.yield_op(('yield', f'tryacq:{self.name}'))
+      if me.held == 0:
+        s.yield_op(('yield', f'tryacq:{self.name}'))
       if self.owner is None or (self.reentrant and self.owner is me):
+        # a lock taken with a try-acquire is a long-lived ownership token, not a critical section:
+        # it does not make the holder's later reads "protected"
         self.owner = me
         self.count += 1
         return True
       return False
-    s.yield_op(('acq', self))
+    if not (self.reentrant and self.owner is me):      # re-entering an owned RLock is not a scheduling point
+      s.yield_op(('acq', self))
     self.owner = me
     self.count += 1
+    me.held += 1
+    self.counted = getattr(self, 'counted', 0) + 1
     return True
 
   def release(self):
     self.count -= 1
+    o = self.owner
+    if getattr(self, 'counted', 0) > 0:
+      self.counted -= 1
+      if o is not None and hasattr(o, 'held') and o.held > 0:
+        o.held -= 1
     if self.count <= 0:
       self.count = 0
       self.owner = None
 
   def locked(self):
-    yield_point(f'locked:{self.name}')
+    s = _ACTIVE[0]
+    me = s.current() if s else None
+    if me is not None and me.held == 0:
+      yield_point(f'locked:{self.name}')
     return self.owner is not None
 
   def __enter__(self):
@@ -351,6 +366,7 @@ class Condition:
     saved = self.lock.count
     self.lock.count = 0
     self.lock.owner = None
+    me.held = max(0, me.held - saved)
     self.waiters.append(me)
     s.yield_op(('wait', self, timeout))
     # scheduled: either notified or timed out; the lock is free (enabledness) -> re-acquire
@@ -365,6 +381,7 @@ class Condition:
       got = False
     self.lock.owner = me
     self.lock.count = saved
+    me.held += saved
     return got
 
   def wait_for(self, predicate, timeout=None):
